@@ -135,6 +135,9 @@ func (r *raffle) returnTicket(ticket *ticket) {
 }
 
 func (r *raffle) runningJob(jobid string) *runState {
+	// the map is changed by every job that starts or ends, so reads need the lock as well
+	r.runningMu.Lock()
+	defer r.runningMu.Unlock()
 	verifhook.Access(r.runningJobs, "raffle.runningJobs", false)
 	state, ok := r.runningJobs[jobid]
 	if ok {
@@ -144,5 +147,12 @@ func (r *raffle) runningJob(jobid string) *runState {
 }
 
 func (r *raffle) getRunningJobs() map[string]*runState {
-	return r.runningJobs
+	// hand out a copy, callers iterate over the result while jobs start and end
+	r.runningMu.Lock()
+	defer r.runningMu.Unlock()
+	running := make(map[string]*runState, len(r.runningJobs))
+	for id, state := range r.runningJobs {
+		running[id] = state
+	}
+	return running
 }
